@@ -350,9 +350,11 @@ func init() {
 	register(&Property{
 		ID: "C08",
 		Explanation: "Decides structural necessary conditions of 'runtime lookahead decisions pick the alternative whose predicates hold': TMPL(negation): in go_parser.go.tmpl every emitted copy of a decision list applies {{if .Predicate.Negated}}!{{end}} in both the cancellable and the plain variant (template tree analysis, so un-instantiated branches are covered). SIBLING(decision-list): in the committed js and test parsers the applyRule and lookaheadRule copies of each lookahead rule have the same tests, polarities and targets. " +
-			"SHIFTWIDTH: the memoization key widens before shifting (distinct predicates at one offset never share a cached answer). AGREE(memo-key): the key identifies the lookahead nonterminal by its entry state, which minimize never merges, not by its final state, which it does. ERRFLOW: a lookahead's error is never dropped (C29). Not decided: the planner (newLookaheadRule/pickLookahead), an ordering algorithm over runtime data pinned by lalr.TestLookahead.",
-		Rules: []string{"TMPL(negation)", "SIBLING(decision-list)", "SHIFTWIDTH", "AGREE(memo-key)", "ERRFLOW"},
+			"SHIFTWIDTH: the memoization key widens before shifting (distinct predicates at one offset never share a cached answer). AGREE(memo-key): the key identifies the lookahead nonterminal by its entry state, which minimize never merges, not by its final state, which it does. DTX(pickLookahead): for every sequence of 1..4 alternatives over {requires the predicate, requires its negation, independent} the picked alternative is the unique positive one, else the unique negated one, else none. DTX(ruleAction): a lookahead rule meeting an existing resolution rule extends that rule (planner.addRule(existing, new)); plain rules are reported as conflicts. ERRFLOW: a lookahead's error is never dropped (C29). Not decided: the ordering pass of newLookaheadRule (a DFS over runtime data pinned by lalr.TestLookahead).",
+		Rules: []string{"TMPL(negation)", "SIBLING(decision-list)", "SHIFTWIDTH", "AGREE(memo-key)", "DTX(pickLookahead)", "DTX(ruleAction)", "ERRFLOW"},
 		Run: func(c *Ctx) {
+			ruleRULEACTION(c)
+			rulePICKLOOKAHEAD(c)
 			ruleMEMOKEY(c)
 			ruleTMPLNEG(c)
 			ruleDECISIONSIBLING(c)
